@@ -237,6 +237,12 @@ def noSpin {M S : Type} [DecidableEq M] (floor : Int) : M → Bool → List (Ev 
   | prev, armed, .out (.sleep d) :: es => noSpin floor prev (armed && decide (d < floor)) es
   | prev, armed, .out (.publish m _) :: es => noSpin floor m (armed && decide (m = prev)) es
 
+/-- The material of the latest publication in a trace (`init` if there is none). -/
+def lastPubM {M S : Type} (init : M) : List (Ev M S) → M
+  | [] => init
+  | .out (.publish m _) :: es => lastPubM m es
+  | _ :: es => lastPubM init es
+
 /-- The store as the update goroutine of `TLSConfig` leaves it after consuming the watcher's outputs. -/
 def applyOuts {M : Type} (cell : Published) : List (Out M CertSet) → Published
   | [] => cell
